@@ -243,6 +243,18 @@ def checkLattice (stride : Nat) : G (List String) := do
                   let bc ← if ← chance 1 2 then pure c else pure c.opp
                   P := P.put bs (some ⟨bc, bk⟩)
               out := out ++ [s!"fen {Spec.toFen P 0 1}", "chk"]
+  -- the two kings next to each other (all 8 neighbours) and at distance two (controls): exhaustive
+  for c in [Color.white, Color.black] do
+    for ks in Spec.allSquares do
+      for df in [-2, -1, 0, 1, 2] do
+        for dr in [-2, -1, 0, 1, 2] do
+          let f : Int := (ks.file : Int) + df
+          let r : Int := (ks.rank : Int) + dr
+          if (df != 0 || dr != 0) && 0 ≤ f && f < 8 && 0 ≤ r && r < 8 then
+            let P : Spec.Position :=
+              { cells := Array.replicate 64 none, side := c, wks := false, wqs := false, bks := false, bqs := false, ep := none }
+            let P := (P.put ks (some ⟨c, .king⟩)).put ⟨f.toNat, r.toNat⟩ (some ⟨c.opp, .king⟩)
+            out := out ++ [s!"fen {Spec.toFen P 0 1}", "chk"]
   return out
 
 /-- capture chains through capture-only successors -/
